@@ -1,4 +1,11 @@
 #!/bin/bash
-# bring the scratch verification worktree /tmp/vseed to /verif's HEAD (keeps its untracked seeded/<tag> results)
+# bring the scratch verification worktree /tmp/vseed to /verif's HEAD (creating it, with a copy of the build output,
+# if it does not exist; keeps its untracked seeded/<tag> results)
 sha=$(git -C /verif rev-parse HEAD)
-git -C /tmp/vseed reset -q --hard $sha && echo "vseed at $sha"
+if [ ! -d /tmp/vseed ]; then
+  git -C /verif worktree add -q --detach /tmp/vseed "$sha"
+  cp -r /verif/lean/.lake /tmp/vseed/lean/.lake 2>/dev/null
+  mkdir -p /tmp/vseed/harness/bin && cp /verif/harness/bin/* /tmp/vseed/harness/bin/ 2>/dev/null
+  cp -r /verif/lean/Saltpack/Audit /tmp/vseed/lean/Saltpack/ 2>/dev/null
+fi
+git -C /tmp/vseed reset -q --hard "$sha" && echo "vseed at $sha"
